@@ -853,7 +853,70 @@ class C14(Check):
             rs = common.shrink_list(rows, f, max_steps=60)
             n = len(rs)
             return {"k": "T", "rows": rs, "perms": [list(reversed(range(n))), list(range(1, n)) + [0] if n else []]}
-        return case
+        return self.shrink_P(case, still_fails)
+
+    @staticmethod
+    def p_fix(files, plats, sched):
+        """a well-formed P case from edited parts (model-side permutations = reversals)."""
+        nev = sum(len(p[2]) for p in plats)
+        rev = lambda n: list(reversed(range(n)))  # noqa: E731
+        return {"k": "P", "files": files, "plats": plats, "sched": sched,
+                "perms": [[rev(len(files)), rev(nev), rev(len(plats[0][2]))]]}
+
+    @staticmethod
+    def p_drop_file(files, plats, j):
+        nf = []
+        for i, (p, lines) in enumerate(files):
+            if i == j:
+                continue
+            ls = []
+            for l in lines:
+                if l[0] == "H":
+                    if l[2] == j:
+                        continue
+                    l = ["H", l[1], l[2] - (1 if l[2] > j else 0)]
+                ls.append(l)
+            nf.append([p, ls])
+        np_ = []
+        for name, defs, comp in plats:
+            c = [i - (1 if i > j else 0) for i in comp if i != j]
+            if c:
+                np_.append([name, defs, c])
+        return nf, np_
+
+    def shrink_P(self, case, still_fails, budget=28):
+        cur = self.p_fix(case["files"], case["plats"], case["sched"])
+        if not still_fails(cur):
+            return case
+        budget -= 1
+        # one perturbed schedule next to the baseline is enough if it still fails
+        for k in range(1, len(cur["sched"])):
+            cand = self.p_fix(cur["files"], cur["plats"], [cur["sched"][0], cur["sched"][k]])
+            budget -= 1
+            if still_fails(cand):
+                cur = cand
+                break
+        changed = True
+        while changed and budget > 0:
+            changed = False
+            for i in range(len(cur["plats"]) - 1, -1, -1):
+                if len(cur["plats"]) < 2 or budget <= 0:
+                    break
+                cand = self.p_fix(cur["files"], cur["plats"][:i] + cur["plats"][i + 1:], cur["sched"])
+                budget -= 1
+                if still_fails(cand):
+                    cur, changed = cand, True
+            for j in range(len(cur["files"]) - 1, -1, -1):
+                if len(cur["files"]) < 2 or budget <= 0:
+                    break
+                nf, np_ = self.p_drop_file(cur["files"], cur["plats"], j)
+                if not np_:
+                    continue
+                cand = self.p_fix(nf, np_, cur["sched"])
+                budget -= 1
+                if still_fails(cand):
+                    cur, changed = cand, True
+        return cur
 
     def self_tests(self):
         """The runner (three tools through runpy in one fresh interpreter) must print what the real
